@@ -3,7 +3,8 @@ from .common import A_COMMON
 HD = "menelaus.data_drift.hdddm:HDDDM"
 TARGETS = [("fn", HD + "._adaptive_threshold"), ("fn", HD + "._hellinger_distance"),
            ("lemma", "hell_identity"), ("lemma", "hell_symmetric"), ("lemma", "hell_nonneg"),
-           ("fn", "menelaus.data_drift.histogram_density_method:HistogramDensityMethod.reset")]
+           ("fn", "menelaus.data_drift.histogram_density_method:HistogramDensityMethod.reset"),
+           ("fn", "menelaus.data_drift.histogram_density_method:HistogramDensityMethod.set_reference")]
 # the update() skeleton takes about three minutes (489 obligations over 29 paths): thorough tier
 TARGETS_THOROUGH = [("fn", "menelaus.data_drift.histogram_density_method:HistogramDensityMethod.update")]
 LEVEL = "exploration"
